@@ -129,6 +129,7 @@ pub fn one_fault<K: KeyT, V: ValT>(
             && d.ctrl_addr == pre_dump.ctrl_addr
             && inv::count_deleted(&pre_dump) > 0
             && inv::count_deleted(&d) == 0
+            && pre_dump.items > 0
         {
             fs.during_inplace_rehash.fetch_add(1, Ordering::Relaxed);
         }
